@@ -36,7 +36,9 @@ def simp_cst_propagation(e_s, expr):
             elif op_name == '*':
                 out = mod_size2uint[int1.size](int(int1) * int(int2))
             elif op_name == '**':
-                out = mod_size2uint[int1.size](int(int1) ** int(int2))
+                out = mod_size2uint[int1.size](
+                    pow(int(int1), int(int2), 1 << int1.size)
+                )
             elif op_name == '^':
                 out = mod_size2uint[int1.size](int(int1) ^ int(int2))
             elif op_name == '&':
